@@ -229,6 +229,24 @@ def strip_gets(line):
     return "|".join(parts)
 
 
+def canon_gets(line):
+    """maximal runs of consecutive get calls inside one handle_block call sorted (the order in which stored blocks / rows are read
+    back is not a subject of C09: every get must follow a store of its index, which the monitor checks on the implementation)"""
+    parts = line.split("|")
+    if len(parts) >= 2:
+        calls = []
+        for c in parts[1].split(";"):
+            toks, run, out = [t for t in c.split(",") if t], [], []
+            for t in toks:
+                if t[:2] in ("dg", "pg", "mg"):
+                    run.append(t)
+                else:
+                    out += sorted(run) + [t]; run = []
+            calls.append(",".join(out + sorted(run)))
+        parts[1] = ";".join(calls)
+    return "|".join(parts)
+
+
 def run_stream(chk, count, nmax, variant="matrix", with_model=True, gets_matter=True):
     """generates `count` fault-free cases, runs implementation and model; returns (cases, parsed results, fvh, fvm)"""
     rnd = random.Random(chk.seed)
@@ -256,7 +274,7 @@ def run_stream(chk, count, nmax, variant="matrix", with_model=True, gets_matter=
         try:
             fvm = core.build_fvm()
             model = core.run_stream(fvm, "recon", lines)
-            chk.correspond("recon", variant, lines, impl, model, soft=None if gets_matter else strip_gets)
+            chk.correspond("recon", variant, lines, impl, model, soft=(canon_gets if gets_matter == "unordered" else None) if gets_matter else strip_gets)
         except core.BuildError as e:
             chk.broken.append(("correspondence", "recon[model build]", {"detail": str(e)[-1500:]}))
     return cases, lines, impl, parsed, fvh, fvm
